@@ -37,16 +37,25 @@ const (
 	nAKinds
 )
 
+// number leaves are concrete digits chosen by enumeration (a decoder that falls back to float64 parses them;
+// the engine has no float theory); "big" differs from its float64 rounding in the last digit
+func hDigit(name string) string {
+	if len(name) < 2 || name[0] != 'x' {
+		return "1" // intervening calls use fixed numbers; only the repeated call B varies
+	}
+	return string([]byte{byte('1' + vx.Choose(name, 2))})
+}
+
 func hDoc(p string) []byte {
-	return []byte(`{"a":` + string([]byte{symDigit19(p + "d")}) + `,"b":{"c":"` + string([]byte{symPlain(p + "s")}) + `"},"l":[1,null]}`)
+	return []byte(`{"a":` + hDigit(p+"d") + `,"b":{"c":"` + string([]byte{symPlain(p + "s")}) + `"},"l":[1,null],"big":1234567890123456789` + hDigit(p+"g") + `}`)
 }
 
 func hPatch(p string) []byte {
-	return []byte(`[{"op":"add","path":"/z","value":` + string([]byte{symDigit19(p + "v")}) + `},{"op":"copy","from":"/b","path":"/y"},{"op":"test","path":"/l","value":[1,null]}]`)
+	return []byte(`[{"op":"add","path":"/z","value":` + hDigit(p+"v") + `},{"op":"copy","from":"/b","path":"/y"},{"op":"test","path":"/l","value":[1,null]},{"op":"add","path":"/huge","value":1e400}]`)
 }
 
 func hMergePatch(p string) []byte {
-	return []byte(`{"b":{"c":null,"d":` + string([]byte{symDigit19(p + "m")}) + `},"e":[null]}`)
+	return []byte(`{"b":{"c":null,"d":` + hDigit(p+"m") + `},"e":[null]}`)
 }
 
 // mkCall builds the arguments of call kind k from symbolic leaves named by prefix p.
@@ -72,7 +81,7 @@ func mkCall(k int, p string) hCall {
 	case hMergeBad:
 		c.a, c.b = hDoc(p), []byte(`{"b":{"c":nul`)
 	case hEqualBad:
-		c.a, c.b = hDoc(p), []byte(`{"a":1,"b":{"c":"x"},"l":[1,null]`)
+		c.a, c.b = hDoc(p), []byte(`{"a":1,"b":{"c":"x"},"l":[1,null],"big":1`)
 	case hCreateBad:
 		c.a, c.b = []byte(`{"a":{"b":[1,2`), hDoc(p)
 	}
@@ -188,8 +197,8 @@ func H_History() {
 // H_SharedPatch: one decoded Patch applied to D1, D2, D1 again equals applying a freshly decoded patch each time;
 // the Patch's raw messages are not written; a result fed back as the next document is not written either.
 func H_SharedPatch() {
-	pB := hPatch("p.")
-	d1, d2 := hDoc("d1."), hDoc("d2.")
+	pB := hPatch("x.p.")
+	d1, d2 := hDoc("x.d1."), hDoc("x.d2.")
 	vx.Note("patch", pB)
 	vx.Note("d1", d1)
 	vx.Note("d2", d2)
